@@ -149,7 +149,7 @@ func init() {
 		stop.Store(true)
 		<-done
 		tot := st.Total()
-		return fmt.Sprintf("%d %d %d | %d %d %d", tot.SuccessfulIterationDurations.Count,
+		return fmt.Sprintf("%d %d %d / %d %d %d", tot.SuccessfulIterationDurations.Count,
 			tot.FailedIterationDurations.Count, tot.DroppedIterationCount, ns.Load(), nf.Load(), nd.Load())
 	})
 }
